@@ -40,7 +40,9 @@ pub fn scan_le(b: &[u8], le: &str) -> Option<usize> {
 fn targeted_le_source(r: &mut StdRng) -> Files {
     let crlf_first = r.gen_bool(0.5);
     let (a, b) = if crlf_first { ("\r\n", "\n") } else { ("\n", "\r\n") };
-    let mut s = format!("first line{a}");
+    // the first line decides; its length crosses the usual read-buffer sizes in some cases
+    let first_len = [10usize, 10, 10, 8189, 8190, 8191, 8192, 9000, 20_000][r.gen_range(0..9)];
+    let mut s = format!("{}{a}", "f".repeat(first_len));
     let mut files = crate::gen::static_files();
     files.insert("opp.txt".into(), format!("o1{b}o2{b}").into_bytes());
     let n = r.gen_range(2..8);
@@ -103,7 +105,7 @@ fn check_c12(ctx: &mut Ctx, case: &ProjectCase) {
 
 fn run_c12(ctx: &mut Ctx) {
     let mut r = StdRng::seed_from_u64(ctx.shard_seed());
-    let n = ctx.tier.pick(500, 20_000);
+    let n = ctx.tier.pick(2000, 20_000);
     for i in 0..n {
         if !ctx.time_left() || ctx.violations.len() > 20 {
             break;
@@ -214,6 +216,28 @@ fn check_c13(ctx: &mut Ctx, files: &Files, seed_note: &str) {
         let res = run_project_at(ctx, &c, &root, false);
         outs.push((res.after.bytes(), res.outcome.verdict.clone(), res.expect));
     }
+    // history: a tree built with one setting, then a needed-build with the other setting must
+    // give exactly what a fresh build with that other setting gives
+    if outs[0].1.is_ok() && outs[1].1.is_ok() {
+        for (first, second) in [(true, false), (false, true)] {
+            ctx.scratch.reuse(&root);
+            let mut c = ProjectCase::simple(files.clone());
+            c.trailing = first;
+            let _ = run_project_at(ctx, &c, &root, false);
+            let mut c2 = c.clone();
+            c2.trailing = second;
+            c2.mode = Mode::InMemoryBuild;
+            let cfg = c2.cfg(&root);
+            let o = crate::run::run_inproc(&cfg, c2.spec.clone(), Some(&root), false);
+            ctx.evals += 1;
+            let now = crate::util::snap(&root).bytes();
+            let want = &outs[if second { 0 } else { 1 }].0;
+            if !o.verdict.is_ok() || &now != want {
+                let bad: Vec<&String> = want.keys().filter(|k| now.get(*k) != want.get(*k)).collect();
+                ctx.violation("C13:needed-after-option-change", format!("tree built with trailing={first}, then needed-build with trailing={second}: verdict {}, files differing from a fresh build with trailing={second}: {bad:?}", o.verdict.short()), json!({"files": crate::util::files_json(files)}));
+            }
+        }
+    }
     ctx.scratch.discard(&root);
     let (on, von, eon) = &outs[0];
     let (off, voff, _) = &outs[1];
@@ -280,7 +304,7 @@ fn check_c13(ctx: &mut Ctx, files: &Files, seed_note: &str) {
 
 fn run_c13(ctx: &mut Ctx) {
     let mut r = StdRng::seed_from_u64(ctx.shard_seed());
-    let n = ctx.tier.pick(300, 12_000);
+    let n = ctx.tier.pick(1500, 12_000);
     for i in 0..n {
         if !ctx.time_left() || ctx.violations.len() > 20 {
             break;
@@ -455,7 +479,7 @@ fn check_mixed(ctx: &mut Ctx, seed: u64) {
 
 fn run_c16(ctx: &mut Ctx) {
     let mut r = StdRng::seed_from_u64(ctx.shard_seed());
-    let n = ctx.tier.pick(500, 15_000);
+    let n = ctx.tier.pick(3000, 20_000);
     for i in 0..n {
         if !ctx.time_left() || ctx.violations.len() > 20 {
             break;
